@@ -4,11 +4,14 @@ CLAIMED = {
             "4/C01", ""),
     "C13": ("SMT (z3 nonlinear real arithmetic with exact algebraic roots of unity) over symbolic execution of the "
             "real axis-conjugation and DFunction Fourier-transform code", "4/C13", ""),
+    "C17": ("SMT (z3 nonlinear real arithmetic, Exp uninterpreted with instantiated functional equation) over "
+            "symbolic execution of set_rate, the order-4 population propagator and get_PropagationMatrix",
+            "4/C17", ""),
     "C20": ("CrossHair (symbolic execution of the real Python helpers over z3 integers), one condition per helper, "
             "reachability twins, counterexamples replayed", "4/C20",
             "CrossHair 0.0.110 'Confirmed over all paths' within the pre: bounds."),
 }
 _NYB = "check not built yet in this round (design in DESIGN.md section 4); not claimed until its harness is sound"
 NOT_APPLICABLE = {p: _NYB for p in
-                  ["C%02d" % i for i in range(2, 20) if i != 13]}
+                  ["C%02d" % i for i in range(2, 20) if i not in (13, 17)]}
 SOURCE_COMMITS = []
